@@ -236,7 +236,17 @@ func runC11(c *Ctx) {
 			return true
 		})
 		okScan := loop != nil && nLoops == 1
-		if okScan {
+		if loop == nil && nLoops == 0 {
+			// the scan written as slices.ContainsFunc(s.reports, …): looks at every stored report
+			ast.Inspect(hr.Decl.Body, func(n ast.Node) bool {
+				if call, isCall := n.(*ast.CallExpr); isCall && len(call.Args) == 2 {
+					if fn := Callee(rinfo, call); fn != nil && fn.Pkg() != nil && fn.Pkg().Path() == "slices" && fn.Name() == "ContainsFunc" && fieldSel(rinfo, call.Args[0], "internal/reporter.Summary", "reports") {
+						okScan = true
+					}
+				}
+				return true
+			})
+		} else if okScan {
 			inspectNoLit(loop.Body, func(n ast.Node) bool {
 				if b, ok := n.(*ast.BranchStmt); ok && b.Tok != token.FALLTHROUGH {
 					okScan = false
